@@ -142,6 +142,10 @@ def parse(path):
                 flush_sec(); cur.canary = False
             elif d == 'orsplit':
                 flush_sec(); cur.orsplit = True
+            elif d == 'needs-input':
+                # the contract pins down more than the property states: a failure is only reported
+                # together with a concrete failing input found on the real code
+                flush_sec(); cur.needs_input = True
             elif d == 'contract':
                 flush_sec(); sec = ('contract',)
             elif d.startswith('at '):
@@ -290,6 +294,7 @@ def build_item(repo, unit, ex, canary, log):
         final = pre + final[:bo] + '{ unimplemented!() }'
         spans = [(a + len(pre), b + len(pre), 'assumed:' + sid, body) for a, b, sid, body in spans if b <= bo]
     info = dict(name=ex.name, kind=ex.kind, impl=ex.impl, file=ex.file, stub=getattr(ex, 'stub', False), lost_splices=lost,
+                needs_input=getattr(ex, 'needs_input', False),
                 from_unit=getattr(ex, 'from_unit', None),
                 src_range=[item.start, item.end],
                 src_line=src.count('\n', 0, item.start) + 1,
